@@ -34,7 +34,7 @@ let handle (line : string) : string =
           (nat_of_int (int_of_string iters))
           (fbits tq)
       in
-      Printf.sprintf "%s %s %s" (hexf t) (triple a) (triple b)
+      Printf.sprintf "ok %s %s %s" (hexf t) (triple a) (triple b)
   | "fit3" :: n :: rest ->
       let rec pts = function
         | r :: phi :: z :: t -> mk_spoint (fbits r) (fbits phi) (fbits z) :: pts t
